@@ -83,4 +83,10 @@ static inline const E *l0_bound(const E *f, const E *l, const E *v, int token, _
   g_ncmp += cost;
   return L0_PADD(f, +, r);
 }
+/* a binary search that does not pass the set's comparator orders with operator< of the elements: another order */
+static inline const E *l0_bound_no_cmp(const E *f, const E *l, const E *v) {
+  (void)v;
+  L0_assert(0, "C03 C04: every ordering decision uses the comparator object the set was constructed with (binary search without it)");
+  return L0_COUNT(L0_PDIFF(l, f)) ? f : l;
+}
 #endif
